@@ -52,7 +52,7 @@ NA = {
  'C17': 'sheet rename/duplicate rewrite every stored formula through parser and printer',
  'C18': 'display -> set_user_input round trip runs the number formatter (float->text) and the input interpreter end to end',
  'C20': 'subject is decimal rendering of f64 (format!("{:.*e}"), ryu); float-to-decimal is not encodable and cannot be left uninterpreted because it is the property',
- 'C21': 'not claimed: executing chrono from its own MIR (niche-packed NonZeroI32, transmutes, 64-bit mul/div by 86400) was not reached; CBMC did not finish the same round trip in 15 min',
+ 'C21': 'tried and withdrawn: the conversion functions call chrono (NaiveDate::from_ymd_opt, Add<TimeDelta>, num_days_from_ce, Datelike). mirsym executes them from chrono\'s own MIR (dumped with -p chrono; NonZero, trait-argument dispatch and a division lemma for the 64-bit /86400 were added), but the assertion query for a ONE-year slice of serials takes ~220 s and the encoding then disagrees with the native run (caught by the per-path native validation), so no sound bounded claim is within reach; the whole range would need ~8000 such slices',
  'C23': 'finite table facts read from language.bin via bitcode; nothing symbolic to decide, enumerating the table is not this technique',
  'C24': 'zip + XML writer/reader over whole workbooks; I/O-bound byte streams of unbounded length',
  'C25': 'same reader on arbitrary bytes (zip inflate, XML tokenizer in third-party crates); loops grow with input',
